@@ -134,8 +134,8 @@ ADDENDA = {
  "C07": (" The Python merge is interpreted by a small interpreter with frames, function values (local, module-level and passed-in helpers), loops over literal tuples and list sinks; the successor-carried clause also rejects any state loader / clear / rebinding of the result after the link was carried.", ""),
  "C09": (" SLOT-SIG: every function cast into a type-object slot returns the class of value (void / pointer / integer width) the slot's function-pointer type promises - a narrower integer makes the error return unrecognisable (SystemError in place of the function's exception, where the Python class raises the original one). PY-TAINT also requires the absence handler of a read to enclose the conversion only. EXC-LEAK: no C function returns a non-error value (constant, further call, counter) on a path where a failing API or activation has certainly left an exception set - the Python class raises the original exception where C would raise SystemError.",
          "; prototype agreement of slot functions; exception-state dataflow with value-set refinement"),
- "C10": (" INPLACE-MONOTONE: no loop of an in-place operator both adds to and removes from the container (per-occurrence toggling; C x22 and Python). INPLACE-OPERAND: the Python in-place operators consume their operand exactly once and never through a membership test. INPLACE-REPLACE: the rebuild step of C &= dominates every success result. ALIAS-GUARD is required only where a loop over the operand modifies self in the same pass.",
-         "; loop-effect and dominator rules for the in-place operators"),
+ "C10": (" INPLACE-MONOTONE: no loop of an in-place operator both adds to and removes from the container (per-occurrence toggling; C x22 and Python). INPLACE-OPERAND: the Python in-place operators consume their operand exactly once and never through a membership test. INPLACE-REPLACE: the rebuild step of C &= dominates every success result. ALIAS-GUARD is required only where a loop over the operand modifies self in the same pass. ERR-SWALLOW: every PyErr_Clear() is dominated by a test of the exception's class, or replaced by another exception on every path, or an accepted protocol idiom - a cursor that clears unguarded truncates the result silently.",
+         "; loop-effect and dominator rules for the in-place operators; dominator rule for exception clears"),
  "C13": (" *AndOverflow converters are modelled by their out-parameter (both signs of the indicator must be excluded, or the negative one by a `result < 0` rejection); the 64-bit helpers are interpreted per argument class including single-digit (compact) ints; conversions factored into functions are followed (stores through an out-parameter; functions returning a converter result with a success flag).", ""),
  "C14": (" CLEAR-THEN-FILL: no operation empties its own container and then rebuilds it through calls from which a key comparison is reachable (object-key units; known finding: C &=). PY-CMP-SWALLOW: no Python try whose handler answers or raises another class encloses a call into the comparing layer.",
          "; call-graph reach after a clearing call; Python handler-scope rule"),
